@@ -1163,6 +1163,11 @@ fn partition(
             None => break,
         }
     }
+    // The number of paths to keep untouched is still `n`. Where there are not enough stored
+    // replicas for that, the links make up for them, as they did when the files were grouped.
+    while to_retain.len() < n && !to_drop.is_empty() {
+        to_retain.push(to_drop.remove(0));
+    }
     // A group may consist of symbolic links only, when the files they point to have not
     // been scanned. There is no replica to retain then, so no link can be safely dropped.
     if !to_retain.iter().any(is_replica) {
